@@ -23,6 +23,15 @@
                                                  condition: `|conditions| + 1` units of fuel are never exhausted
                                                  (`idcStarO` = the model with its own exhaustion observable,
                                                  `idcstar_model_is_idcStarO`); `idcstar_bound_suffices`: the model's bound is enough
+    * `idcstar_terminates_shared_names`          TERMINATION when outcomes and conditions are copies of the same variables: for every
+                                                 pair of dicts of well-formed keys none of which is SELF-INTERVENED (`IdcInv`, decidable
+                                                 `idcInvB`), any well-formed loop-free graph, all iteration orders, the line-4 recursion
+                                                 ends: some fuel `N` suffices and every larger fuel gives the same run.  Lexicographic
+                                                 measure (#variable names among the outcomes, #conditions named like no outcome); key
+                                                 lemmas: names never migrate between the two sides (`reassoc_general`), rule 2 never
+                                                 accepts a condition that is a copy of an outcome variable (`rule2_name_free`: copies
+                                                 of a variable stay adjacent in the counterfactual graph, `cg_dop`; adjacent nodes are
+                                                 not d-separated).  No explicit bound (see OPEN).
     * `idcstar_division_modelled`                ID* never returns a Fraction: the modelled division covers every case
     * `idcstar_sound_fragment`                   SOUNDNESS ON A NAMED FRAGMENT (`InFragmentC`, decidable: `inFragmentCB`): observational
                                                  conditional queries P(y | x) — factual variables of the graph, unstarred values, no
@@ -30,37 +39,49 @@
                                                  estimand marginalises nothing.  There the returned expression EQUALS
                                                  P(outcomes ∧ conditions) / P(conditions) in every compatible functional SCM
                                                  (via `idstar_sound_fragment`, the repaired `conditional`, marginalisation)
+    * `idcstar_sound_fragment_exchange`          SOUNDNESS IN THE EXCHANGE CASE (`InFragmentX`, decidable: `inFragmentXB`): P(y | x) with
+                                                 ONE factual condition to which rule 2 APPLIES (line 4 recurses) and every outcome a
+                                                 descendant of X (answer: ID*'s estimand for P(y_x)) or none (answer: P(y)).  The
+                                                 returned expression EQUALS P(outcomes ∧ X = x) / P(X = x) in EVERY compatible functional
+                                                 SCM with P(X = x) > 0 — rule 2 of the do-calculus is proved for functional SCMs on the
+                                                 noise space (`Fscm.prob_exchange_marginal`: consistency + independence of disjoint noise
+                                                 coordinates), WITHOUT any positivity assumption on the kernels; its graphical premise
+                                                 is read off the model's own d-separation verdict (`sep_facts_of_no_path`).
     * vocabulary (C06 part) `idcstar_vocab`      every leaf of a returned estimand is a single-world term
 
-  -- OPEN (stated in full, NOT proved outside the fragment; the first is FALSE on the current tree outside it — see the C08
+  -- OPEN (stated in full, NOT proved outside the fragments; the first is FALSE on the current tree outside them — see the C08
   -- entries of known_findings.jsonl):
   --   theorem idcstar_sound : idcStar ordf dordf kordf G outs conds = .ok e → e ≠ .zero → M.Compatible G →
   --       EventWF M (outs ++ conds) → ν.Distinct → 0 < probEvent M ν conds →
   --       den M ν (outs ++ conds) e = probEvent M ν (outs ++ conds) / probEvent M ν conds
-  --     planned reduction (DESIGN §4 C08): `conditional_den_spec_observational` (C13; F11 is repaired for subscripts, the bound-range part is open) + `idstar_sound` (C07; false today: F10)
-  --     + soundness of the exchange step (rule 2 of the do-calculus on the counterfactual graph, via d-separation C04).
-  --     Proved for the no-exchange observational fragment (`idcstar_sound_fragment`).  The next step — one factual condition X
-  --     exchanged for do(x) with every outcome a descendant of X — needs rule 2 for functional SCMs
-  --     (P(y | x) = P(y_x) when Y ⫫ X in G with the edges leaving X removed); `rule2_sound` (Props/C03) proves it for positive
-  --     kernel SCMs, the transfer through Lemmas/FscmToScm needs positive push-forward kernels, which the quantifier of C08
-  --     ("every compatible SCM in which the conditions have positive probability") does not grant.
+  --     Proved on `InFragmentC` (no exchange) and `InFragmentX` (one factual condition exchanged by rule 2; all / no outcomes
+  --     descend from it).  Outside: (a) an exchange made while OTHER conditions remain is wrong in general on the current tree
+  --     (findings exchange:conditions / exchange:separation: the remaining conditions are neither re-subscripted nor conditioned on
+  --     in the separation test), a proof would need rule 2 with a non-empty conditioning set for functional SCMs (conditional
+  --     independence on the noise space) AND a repaired exchange; (b) one factual condition with SOME but not all outcomes descending
+  --     from it: the exchange step itself is covered by `probEvent_rule2_fragX` + `Fscm.solve_nondescendant`, but the recursive call
+  --     is about a two-world event (`Y_x`, `Y'`), outside the fragment on which ID* is proved sound (C07); (c) starred values /
+  --     counterfactual inputs: ID* is wrong there today (F10), inherited; (d) the bound-range part of F11 in the final normalisation.
+  --     `exchangeB` also asks (by running the model) that the counterfactual graph of the exchanged outcomes keeps every `Y_x`; this held
+  --     on every generated input (no `Y_x` of a descendant of `X` is merged into `Y`) but is not proved from the other conditions.
   --   theorem idcstar_zero_sound : idcStar … = .ok .zero → … → probEvent M ν (outs ++ conds) = 0
   --     proved for Zero from line 3 (`idcstar_zero_line3_sound`) and for Zero coming from ID*'s lines 2 and 5 (C07); Zero from
   --     deeper inside ID* is open (false today: F10/M5).
   --   theorem idcstar_terminates : idcStar … ≠ .error (.internal "fuel")
   --     The two inner ID* calls terminate (Props/C07 `idstar_never_out_of_fuel`).  For the line-4 recursion of IDC* itself:
-  --     PROVED on every input in which no variable NAME occurs both among the outcomes and among the conditions
-  --     (`idcstar_own_recursion_terminates`, explicit bound |conditions| + 1, any graph, any iteration orders): there the
-  --     re-association never adds a condition and every level removes one.
-  --     OPEN when an outcome and a condition are copies of one variable (e.g. Y_x and Y_x'): the re-association of merged nodes
-  --     (`get_new_outcomes_and_conditions`, by variable NAME) can then put a new key into BOTH dicts, so |conditions| grows
-  --     (e.g. graph B → C, outcomes {C_{a,b,c'} = c', B_{a',b,c'} = b'}, conditions {A_{a,b,c'} = a, C_{a} = c}: the next call has
-  --     3 outcomes and 2 conditions, 2 of them shared).  A shared key is never exchanged itself (rule 2 would need it
-  --     d-separated from itself) but the exchange of another condition can SPLIT it into an outcome k_{..,c} and a condition
-  --     k; no linear combination of |keys|, |shared keys|, |unshared conditions|, |unshared outcomes| decreases through both
-  --     steps, a proof needs to know when the merge loop can eliminate a key again.  No looping input was found: 45 000
-  --     random inputs with up to 5 worlds, repeated names and keys shared between outcomes and conditions (and the 50 000 of
-  --     the previous round) never recursed deeper than |conditions| + 1; checked on every generated input by the correspondence.
+  --     PROVED (i) with the explicit bound |conditions| + 1 when no variable NAME occurs both among the outcomes and among the
+  --     conditions (`idcstar_own_recursion_terminates`), (ii) WITHOUT a bound for all inputs without self-intervened keys
+  --     (`idcstar_terminates_shared_names`).
+  --     OPEN (1): an explicit bound in case (ii).  The re-association CAN add conditions there, even at later levels (e.g. graph
+  --     A→D, B→D, C→D, B→Y, C→Y; outcomes D_b, D_c, Y_b; conditions A, Y_c: the second level has 1 condition, its re-association
+  --     returns 2, both shared with the outcomes), and the number of keys can grow by one when an exchange re-subscripts a key that
+  --     is both an outcome and a condition; so the model's own bound 2(|outcomes| + |conditions|) + |V| + 4 is not proved sufficient
+  --     (no input is known on which the recursion is deeper than |conditions| + 1: EVERY input over two variables with ≤ 2 outcomes and
+  --     ≤ 2 conditions on the four two-node ADMGs — 1 336 608 inputs — and over 10 million random inputs with up to 6 variables, 6 worlds,
+  --     9 keys were run through the model, driver op `idc_star_trace`, harness/props/c08_termsearch.py).
+  --     OPEN (2): inputs with a SELF-INTERVENED key (X_x) among outcomes and conditions that share a variable name: a self-intervened
+  --     copy has no noise and hence no edge to the other copies, rule 2 can accept a condition named like a self-intervened outcome,
+  --     and the measure above need not decrease (it does not on about half of such random inputs); no other measure is known.
 -/
 import Y0.Lemmas.CfIdcStar
 import Y0.Lemmas.CfIdcTerm
